@@ -1,5 +1,6 @@
 import Sebuf.Gen.Pipeline
 import Sebuf.Call
+import Sebuf.Gen.PropNames
 /-!
 Error plumbing of the emitted Go server (`genericHandler` error branch, `writeErrorWithHandler`,
 `defaultErrorResponse`, `defaultErrorStatusCode`, `responseCapture`) as a finite function
@@ -143,5 +144,26 @@ def specClientErr (status400 : Bool) (b : Body) : ClientErr :=
   | .violations => if status400 then .validation else .other
   | .errorMessage | .hookMessage => .error
   | .customMessage | .hookBody => .other
+
+/-! ### the emitted TypeScript client (`handleError`) -/
+
+inductive TsClientErr
+  | validation          -- ValidationError(violations)
+  | api (status : Nat)  -- ApiError(status, message, body): carries the status and the raw body
+deriving DecidableEq, Repr
+
+/-- `handleError` of the emitted TS client (JSON only), over the regenerated tests: a
+ValidationError exactly when the status test AND the body test hold; an ApiError carrying the
+response's status otherwise. `statusIs400` / `hasViolations` are what the two regenerated tests
+(`resp.status === 400`, `parsed.violations`) evaluate to on the response. -/
+def tsClientErr (status : Nat) (hasViolations : Bool) : TsClientErr :=
+  let statusTest := if Gen.PropNames.tsClientValidationStatusTest == "resp.status === 400" then decide (status = 400) else true
+  let bodyTest := if Gen.PropNames.tsClientValidationBodyTest == "parsed.violations" then hasViolations else true
+  if statusTest && bodyTest then .validation else .api status
+
+/-- what the property asks: a 400 (carrying violations) is a validation error, any other failure an
+error carrying the same status (and body). -/
+def specTsClientErr (status : Nat) (hasViolations : Bool) : TsClientErr :=
+  if status = 400 ∧ hasViolations = true then .validation else .api status
 
 end Sebuf.Errors
